@@ -11,6 +11,7 @@ from fractions import Fraction
 import z3
 
 from .core import (
+    grad_of,
     AND,
     IMPL,
     NOT,
@@ -160,7 +161,8 @@ def ew(fn, args, out_dtype=None, compute=None, name=None):
                 vals.append(v if cdt is None else cast(v, cdt))
         return fn(*vals)
 
-    return mk(shape, out_dtype or cdt, elem)
+    odt = out_dtype or cdt
+    return mk(shape, odt, elem, grad=(odt == "f" and grad_of(*args)))
 
 
 def _cmp_inf(op, a, b):
@@ -635,7 +637,7 @@ def _adv_getitem(t, index):
                 J[k] = it
         return src(tuple(J))
 
-    return mk(shape, t.dtype, elem)
+    return mk(shape, t.dtype, elem, grad=grad_of(t))
 
 
 def _wf_index_range(idx_t, n, what):
@@ -1086,7 +1088,7 @@ def gather(src, dim, idx):
         J[d] = isn(I)
         return ss(tuple(J))
 
-    return mk(idx.shape, src.dtype, elem)
+    return mk(idx.shape, src.dtype, elem, grad=grad_of(src))
 
 
 def _expanded_along(t, d):
@@ -1146,7 +1148,7 @@ def scatter(src, dim, idx, val, mode="set", inplace=False):
     if inplace:
         src.write(new)
         return src
-    out = mk(src.shape, dt, lambda J: new(J, ss(J)))
+    out = mk(src.shape, dt, lambda J: new(J, ss(J)), grad=grad_of(src, val))
     if single and not partial:
         out.prov = ("scatter", src, d, idx, val, mode)
     return out
@@ -1198,7 +1200,7 @@ def cat(tensors, dim=0):
                 r = ite(c, v, r)
         return r
 
-    return mk(tuple(shape), dt, elem)
+    return mk(tuple(shape), dt, elem, grad=grad_of(*tensors))
 
 
 def stack(tensors, dim=0):
@@ -1234,7 +1236,7 @@ def roll(t, shifts, dims):
             J[d] = zint(simp_sub(i, sh)) % zint(n)
         return s(tuple(J))
 
-    return mk(t.shape, t.dtype, elem)
+    return mk(t.shape, t.dtype, elem, grad=grad_of(t))
 
 
 def pad(t, padding, mode="constant", value=0):
@@ -1335,7 +1337,7 @@ def reduce(kind, t, dim=None, keepdim=False, label=""):
                     r = z3.If(v > r, v, r) if kind == "max" else z3.If(v < r, v, r)
             return r
 
-        res = mk(outer_shape, out_dt, elem)
+        res = mk(outer_shape, out_dt, elem, grad=(out_dt == "f" and grad_of(t)))
     else:
         if kind in ("sum", "max", "min", "argmax", "argmin") and len(ns) > 1:
             # nest one dim at a time (last first)
@@ -1349,7 +1351,7 @@ def reduce(kind, t, dim=None, keepdim=False, label=""):
         red = ctx.new_red(kind, ns, body, len(outer_shape), out_dt, label)
         if kind in ("max", "min", "argmax", "argmin"):
             ctx.wf(f"{kind}-nonempty", zint(ns[0]) >= 1)
-        res = mk(outer_shape, out_dt, lambda outer: red.app(outer), prov=("red", red))
+        res = mk(outer_shape, out_dt, lambda outer: red.app(outer), prov=("red", red), grad=(out_dt == "f" and grad_of(t)))
         # provenance hint: sum of a point-update of another tensor
         if kind == "sum" and t.prov and t.prov[0] == "scatter" and t.prov[2] == dims[0]:
             red.hints.append(("point_update", t.prov))
@@ -1412,7 +1414,7 @@ def norm(t, p=2, dim=-1, keepdim=False):
             return z3.If(vals[0] >= 0, vals[0], -vals[0])
         raise Unsupported("norm over dim of size > 2")
 
-    r = mk(shape, "f", elem)
+    r = mk(shape, "f", elem, grad=grad_of(t))
     return unsqueeze(r, d) if keepdim else r
 
 
